@@ -2732,6 +2732,7 @@ int32 parseFinished(ssl_t *ssl, int32 hsLen,
 #endif
     c += hsLen;
     ssl->hsState = SSL_HS_DONE;
+    ssl->bFlags &= ~BFLAG_CCS_RECVD;
     /*  Now that we've parsed the Finished message, if we're a resumed
         connection, we're done with handshaking, otherwise, we return
         SSL_PROCESS_DATA to get our own cipher spec and finished messages
